@@ -10,7 +10,7 @@ From Coq Require Import ZArith String.
 From PG Require Import Lib.Str Lib.Cmp Lib.Sort Lib.Regex Model.Selector Model.DirEntry Model.UMN.
 Local Open Scope N_scope.
 
-Inductive kind := KDir | KFile | KSpecial.   (* S_ISDIR / S_ISREG / anything else *)
+Inductive kind := KDir | KFile | KFifo | KSpecial.   (* S_ISDIR / S_ISREG / S_ISFIFO / anything else *)
 
 Record world := mkWorld {
   w_selector : str;                  (* selector of the directory being listed *)
@@ -33,7 +33,7 @@ Definition child_entry (w : world) (n : str) : result child_info :=
   if negb (is_secure (child_sel w n)) then Raise FileNotFound
   else match w_stat w n with
        | Some KDir | Some KFile => Ok (w_info w n)
-       | Some KSpecial | None => Raise FileNotFound
+       | Some KFifo | Some KSpecial | None => Raise FileNotFound
        end.
 
 Definition servable (w : world) (n : str) : bool :=
@@ -112,10 +112,14 @@ Section UMNListing.
                    | _ => umn_scan r files links
                    end
                  else if w_isdir w n then umn_scan r files links  (* a "dot dir" *)
-                 else match w_text w n with
-                      | None => Raise IOErr
-                      | Some text =>
-                          bind (plf None text) (fun ls => umn_scan r files (links ++ ls))
+                 else match w_stat w n with
+                      | Some KFifo => Raise Blocked            (* open() waits for a writer *)
+                      | _ =>
+                        match w_text w n with
+                        | None => Raise IOErr
+                        | Some text =>
+                            bind (plf None text) (fun ls => umn_scan r files (links ++ ls))
+                        end
                       end
                else umn_scan r (files ++ [n]) links
              end
